@@ -356,8 +356,9 @@ def fit_world(args, scratch):
         install_lib(scratch, args['lib_src'], runname)
     else:
         # replay in a later process: the fixture directory of the original check run is gone; regenerate it
+        ipe_ = bool(((args.get('opts') or {}).get('test_all') or {}).get('ignore_previous_eqns'))
         g = run_world(world_spec(dict(args, P=1, policy={'kind': 'lowest'}, script=None, plan=None, seed=0),
-                                 [['gen', dict(runname=runname, compl=comp)]]), scratch)
+                                 [['gen', dict(runname=runname, compl=c_)] for c_ in (range(1, comp + 1) if ipe_ else [comp])]), scratch)
         if g['violation'] is not None:
             raise RuntimeError('fixture generation failed: %s' % g['violation']['sig'])
     like = dict(args['like'])
